@@ -932,15 +932,16 @@ def _s_load_rdm(P, v, rec):
 
 @spec('rdm.rdms.RDMs.save', 'data.base.DatasetBase.save', 'inference.result.Result.save')
 def _s_save(P, v, rec):
-    """v0 / v1: as the default recipe (hdf5 / pkl into a new file); flavour 'exists', v2 / v3: the output file EXISTS already"""
-    if v >= (4 if P.flavour == 'exists' else 2):
+    """as the default recipe (hdf5 / pkl / hdf5 into a new file); flavour 'exists', v2 / v3: the output file EXISTS already"""
+    if v >= (4 if P.flavour == 'exists' else AUTO_VARIANTS):
         return None
     ft = 'pkl' if v % 2 else 'hdf5'
     fn = P.path(f'{rec.short}_{v}.{ft}')
-    if v >= 2:
+    exists = P.flavour == 'exists' and v >= 2
+    if exists:
         with open(fn, 'wb') as f:
             f.write(b'previous content of the output file')
-    return dict(filename=fn, file_type=ft, overwrite=bool(v >= 2))
+    return dict(filename=fn, file_type=ft, overwrite=exists)
 
 
 @spec('rdm.transform.geotopological_transform')
